@@ -1625,8 +1625,12 @@ impl<'a, R: FileManager> FrontendCtx<'a, R> {
                     let mut key = type_args[0].clone();
                     let mut is_ref = matches!(key.kind, RuntypeKind::Ref(_));
 
-                    while is_ref {
-                        if let RuntypeKind::Ref(r) = &type_args[0].kind {
+                    // follow the alias chain of the key type (bounded: aliases may be circular)
+                    let mut hops = 0;
+                    while is_ref && hops < 64 {
+                        hops += 1;
+                        is_ref = false;
+                        if let RuntypeKind::Ref(r) = &key.kind {
                             let map = self
                                 .partial_validators
                                 .get(r)
